@@ -663,6 +663,11 @@ func ExecHistory(c hx.Case) hx.Result {
 	for i := 0; i < p.NDef; i++ {
 		res.Outs = append(res.Outs, "ok")
 	}
+	if len(p.Ops) > 0 && !Builds(p.G) {
+		res.Outs = append(res.Outs, "hang")
+		res.BadOp, res.What = p.NDef, fmt.Sprintf("NewCFG did not return within %v for this grammar", callTimeout)
+		return res
+	}
 	h := NewHist(p.G)
 	if !Hygienic(p.G) {
 		h.tags["in:names-with-reserved-suffix"] = true
